@@ -71,7 +71,7 @@ def gen_antenna(rng, array=None, dyadic=None):
 
 def gen_elements(rng, tier="quick", common_prefix=False):
     T = rng.choice([1, 2, 2, 3, 4, 4, 8])
-    B = rng.choice([4, 8, 8, 16, 16, 32, 64] + ([128, 256] if tier == "thorough" and rng.random() < 0.3 else []))
+    B = rng.choice([4, 8, 8, 16, 16, 32, 64, 12, 10, 26] + ([128, 256] if tier == "thorough" and rng.random() < 0.3 else []))
     bits = rng.choice([8, 8, 4])
     if common_prefix:
         dig = {"period": rng.choice([-2, -1, 0]), "ncalc": rng.choice([1, 2, T * B, 2 * T * B]),
